@@ -1163,7 +1163,14 @@ impl TypeChecker {
     ) -> TypeResult<(&'a Meta<Identifier>, Declaration)> {
         let mut ident = idents.next().unwrap();
 
+        // After `super`, the next identifier is looked up among the members
+        // of that module only, like any later segment of a path. It should
+        // not be found through the imports of that module or in the scopes
+        // around it.
+        let mut recurse = true;
+
         while ident.node == "super".into() {
+            recurse = false;
             let Some(dec) = self.type_info.scope_graph.parent_module(scope)
             else {
                 return Err(self.error_simple(
@@ -1190,7 +1197,6 @@ impl TypeChecker {
         // The current implementation is a bit strange because it uses
         // resolve_name, but after the first identifier, it should actually
         // not really traverse the scope graph.
-        let mut recurse = true;
         loop {
             if ident.node == "super".into() {
                 return Err(self.error_simple(
